@@ -269,5 +269,47 @@ that was called, `expectedView`, no other flag bits, the raw parts of the messag
 def SentCall.handed {β : Type} (y : SentCall β) : Handed β :=
   ⟨some (callHook y.call), y.expectedView, 0, y.sent.msg.rawHeader, y.sent.msg.rawPadding, y.sent.msg.rawBody⟩
 
+/-! ## Several connections in one process (state-leak round 2026-09-30)
+
+A process holds many protocol instances at once (a bus with its clients, a client on two buses, one connection after
+another).  The reactor calls `dataReceived` of ONE instance at a time, in whatever order the sockets become readable.
+In the model a `dataReceived` is `step A s data` on the state `s` of that instance: it reads and writes nothing else -
+which is the claim that `_buffer`, `_nextMsgLen`, `_endian`, `_authenticated`, `_firstByte` and the authenticator are
+per-instance in the code (class attributes are only defaults that the first assignment shadows).  `runHist` is a whole
+history of such calls over an indexed family of connections; `Properties/C04.lean history_independent` states that
+every connection sees exactly its own projection; the stream `connections-interleaved` runs `runHist` (driver command
+`H`) against several live `BasicDBusProtocol` instances made by `makeConnection`.  A connection that is lost simply gets
+no further events; a connection made later is an index whose state is still `St.init`. -/
+namespace Conns
+
+/-- One event of a history: connection `c` is handed the read `d`. -/
+abbrev Event := Nat × Bytes
+
+/-- `dataReceived(d)` on connection `c` of the process `w` (connection index -> protocol state). -/
+def stepAt {α : Type} (A : Auth α) (w : Nat → St α) (c : Nat) (d : Bytes) : (Nat → St α) × List Effect :=
+  let r := step A (w c) d
+  (fun k => if k = c then r.1 else w k, r.2)
+
+/-- A history of reads over the connections of one process.  -> the states afterwards, the effects in order, each
+tagged with the connection on which it happened. -/
+def runHist {α : Type} (A : Auth α) (w : Nat → St α) : List Event → (Nat → St α) × List (Nat × Effect)
+  | [] => (w, [])
+  | (c, d) :: es =>
+    let r := stepAt A w c d
+    let q := runHist A r.1 es
+    (q.1, r.2.map (fun e => (c, e)) ++ q.2)
+
+/-- The reads connection `c` is handed in the history, in order. -/
+def readsOf (c : Nat) : List Event → List Bytes
+  | [] => []
+  | (k, d) :: es => if k = c then d :: readsOf c es else readsOf c es
+
+/-- The effects that happened on connection `c`, in order. -/
+def effectsOf (c : Nat) : List (Nat × Effect) → List Effect
+  | [] => []
+  | (k, e) :: t => if k = c then e :: effectsOf c t else effectsOf c t
+
+end Conns
+
 end Receive
 end Txdbus.Proto
